@@ -656,6 +656,69 @@ def run_case(case):
     return K.result("held", cells=sorted(cells), obs=obs, sample=sample)
 
 
+def _ppmd_candidates(case):
+    """(order, mem) pairs a PPMd coder of this case's inputs may declare: the props family's own value, mutated
+    5/7-byte blobs of a layout with a PPMd coder, and any 5-byte property following method id 030401 in the bytes."""
+    import struct
+
+    out = []
+    fam = case.get("fam")
+    blobs = []
+    if fam == "props" and case.get("id") == "030401":
+        blobs.append(bytes.fromhex(case.get("props") or ""))
+    elif fam in ("struct", "repeat") and case.get("layout") is not None:
+        lay = BASE_LAYOUTS[case["layout"]]
+        if any(c.get("m") == "PPMd" for f in lay["folders"] for c in f["chain"]):
+            toks = []
+            W.build(_base_members(), lay, password="pw", rng=random.Random(1), token_hook=lambda t: (toks.extend(t), t)[1])
+            for m in case.get("muts") or [case.get("mut")]:
+                if m and m[0] == "r" and toks[m[1]][0] == "r":
+                    b = bytearray(toks[m[1]][1])
+                    b[m[2]] = m[3]
+                    blobs.append(bytes(b))
+    elif case.get("arc"):
+        base = bytes.fromhex(case["arc"]["hex"])
+        for op in case.get("ops") or []:
+            img = D.apply(base, op)
+            i = img.find(b"\x03\x04\x01\x05")
+            while i >= 0:
+                blobs.append(img[i + 4 : i + 9])
+                i = img.find(b"\x03\x04\x01\x05", i + 1)
+    for b in blobs:
+        if len(b) in (5, 7):
+            order, mem = struct.unpack("<BL", b[:5])
+            if (order, mem) not in out:
+                out.append((order, mem))
+    return out
+
+
+_PPMD_ALLOC = r"""
+import resource, sys
+import pyppmd
+lim = int(sys.argv[3])
+resource.setrlimit(resource.RLIMIT_AS, (lim, lim))
+try:
+    d = pyppmd.Ppmd7Decoder(int(sys.argv[1]), int(sys.argv[2]))
+    d.decode(bytes(32), 10)
+except Exception as e:
+    print(type(e).__name__)
+"""
+
+
+def _ppmd_alloc_aborts(order, mem) -> bool:
+    import signal
+    import subprocess
+
+    if mem < (1 << 30):
+        return False
+    try:
+        # a limit below the declared model: the allocation must fail, as it does in a worker whose address space is partly used
+        p = subprocess.run([sys.executable, "-c", _PPMD_ALLOC, str(order), str(mem), str(min(RLIMIT_AS, max(512 << 20, mem // 2)))], capture_output=True, timeout=120)
+    except subprocess.TimeoutExpired:
+        return False
+    return p.returncode == -signal.SIGABRT
+
+
 def on_abnormal(case, kind, info):
     fam = case.get("fam")
     if kind == "cpu-budget":
@@ -675,6 +738,12 @@ def on_abnormal(case, kind, info):
         # valid_input: the runner must not file a block inside a codec library under the library's known
         # finding (decode past the end of a hostile stream) when the archive was a valid one
         return K.result("violated", key="deadlock/%s" % fam, what="call blocked with no CPU progress (%s)" % fam, valid_input=(fam == "intact"))
+    if kind.startswith("crash:") and "ABRT" in kind:
+        for order, mem in _ppmd_candidates(case):
+            if _ppmd_alloc_aborts(order, mem):
+                return K.result("violated", key="codec-library/pyppmd-alloc-failure-abort",
+                                what="family %s: the input declares a PPMd model of %d bytes (order %d); pyppmd alone, in a fresh process whose address-space limit is below the declared model, aborts "
+                                     "the process when that allocation fails (%s)" % (fam, mem, order, (info or "").strip()[-60:]))
     if kind.startswith("crash:"):
         if "KILL" in kind:
             return K.result("violated", key="killed/%s" % fam, what="worker was killed (out of memory?) on family %s" % fam)
